@@ -31,6 +31,7 @@ ASSUMPTIONS = ["RefDS (mc/props/c13.py) encodes the statement: shared registry, 
 
 # z: float labels of large magnitude (Julian days); 'zbad' differs from them by two weeks, i.e. by less than 1e-5 of the magnitude
 XL, YL, ZL, UL = [10, 20], ["a", "b"], [2451545.0, 2451546.0], [1, 2, 3]
+V4L, V4ALT = [1.5, 2.5], 16777217
 POOL = {   # arrays that can be assigned: dims + labels (values derive from the id)
     "s0": ([], []),
     "x": (["x"], [XL]), "xbad": (["x"], [[10, 30]]), "xlong": (["x"], [[10, 20, 30]]),
@@ -40,6 +41,7 @@ POOL = {   # arrays that can be assigned: dims + labels (values derive from the 
     "zx_bad": (["z", "x"], [ZL, [10, 30]]),     # new axis z is listed BEFORE the mismatching x
     "xz": (["x", "z"], [XL, ZL]), "z": (["z"], [ZL]), "u": (["u"], [UL]), "ubad": (["u"], [[1, 2, 4]]),
     "xw": (["x", "w"], [XL, [7, 8]]), "zbad": (["z"], [[2451559.0, 2451560.0]]),
+    "v4": (["v"], [V4L]),       # single-precision labels: relabelled with a value that float32 cannot hold (V4ALT)
 }
 NONDA = {"list2": [1.5, 2.5], "scalar": 4.0}
 KEYS = ["a", "b", "c"]
@@ -57,7 +59,10 @@ def kind_of(labels):
 def pool_array(pid, key):
     dims, labels = POOL[pid]
     base = 1 + sorted(POOL).index(pid) * 3 + KEYS.index(key)
-    return D.spec(dims, labels, [kind_of(l) for l in labels], vk="f", base=base)
+    s = D.spec(dims, labels, [kind_of(l) for l in labels], vk="f", base=base)
+    if pid == "v4":
+        s["ldt"] = ["float32"]
+    return s
 
 
 # ------------------------------------------------------------------------------------------
@@ -168,7 +173,7 @@ def enabled(ref, tier):
     dims = ref.dims()
     for key in KEYS:
         for pid in POOL:
-            if tier == "quick" and pid in ("xw", "ubad", "xlong", "zbad") and key != "a":
+            if tier == "quick" and pid in ("xw", "ubad", "xlong", "zbad", "v4") and key != "a":
                 continue
             ev.append(["set", key, pid])
         if key == "c":
@@ -179,10 +184,14 @@ def enabled(ref, tier):
     fresh = [n for n in FRESH if n not in dims]
     for i, d in enumerate(dims):
         lab = ref.axes[i][1]
-        alt = "zz" if kind_of(lab) == "O" else 99
+        alt = "zz" if kind_of(lab) == "O" else (V4ALT if lab[-1:] == V4L[-1:] else 99)
         if fresh:
             ev.append(["rename_axis", i, fresh[0]])
             ev.append(["rename_axes", d, fresh[0]])
+            # the same through the inplace=False variants: the returned copy is the Dataset from then on (and the original is left alone)
+            ev.append(["copy_set_axis_name", i, fresh[0]])
+            if tier != "quick" or i == len(dims) - 1:
+                ev.append(["copy_rename_axes", d, fresh[0]])
             if tier != "quick":
                 ev.append(["set_axis_name", i, fresh[0]])
         if alt not in lab and lab:
@@ -192,6 +201,8 @@ def enabled(ref, tier):
             ev.append(["axes_setitem_pos", i, alt])
             if fresh:     # the replacement Axis also carries another name: replace and rename in one step
                 ev.append(["axes_setitem_rename", d if i % 2 == 0 else i, alt, fresh[0]])
+            if tier != "quick" or i == len(dims) - 1:
+                ev.append(["copy_set_axis_list", i, alt])
             if tier != "quick":
                 ev.append(["set_axis_list", i, alt])
                 ev.append(["set_axis_call", i, alt])
@@ -221,6 +232,11 @@ def enabled(ref, tier):
         free = [k for k in KEYS if k not in ref.vars]
         if free:
             ev.append(["rename_keys", ks[0], free[0]])
+            ev.append(["copy_rename_keys", ks[-1], free[0]])
+            if len(ks) >= 2:     # a chain: the new name of one variable is the old name of another
+                ev.append(["rename_keys_map", [[ks[0], ks[1]], [ks[1], free[0]]]])
+        if len(ks) >= 2:
+            ev.append(["rename_keys_map", [[ks[0], ks[1]], [ks[1], ks[0]]]])      # a swap
     return ev
 
 
@@ -284,6 +300,16 @@ def apply_impl(ds, ev, made=None):
         ds.axes.append(Axis(np.array(UL), "u"))
     elif k == "rename_keys":
         ds.rename_keys({ev[1]: ev[2]})
+    elif k == "rename_keys_map":
+        ds.rename_keys(dict((a, b) for a, b in ev[1]))
+    elif k == "copy_set_axis_name":
+        return ds.set_axis(axis=ev[1], name=ev[2], inplace=False)
+    elif k == "copy_rename_axes":
+        return ds.rename_axes({ev[1]: ev[2]}, inplace=False)
+    elif k == "copy_set_axis_list":
+        return ds.set_axis(_relabeled(py(ds.axes[ev[1]].values), ev[2]), axis=ev[1], inplace=False)
+    elif k == "copy_rename_keys":
+        return ds.rename_keys({ev[1]: ev[2]}, inplace=False)
     else:
         raise ValueError(ev)
 
@@ -302,9 +328,9 @@ def apply_ref(ref, ev):
     if k == "del":
         d = ref.vars.pop(ev[1])[0]
         ref.prune(d)
-    elif k in ("rename_axis", "set_axis_name"):
+    elif k in ("rename_axis", "set_axis_name", "copy_set_axis_name"):
         ref.rename(ref.axes[ev[1]][0], ev[2])
-    elif k == "rename_axes":
+    elif k in ("rename_axes", "copy_rename_axes"):
         ref.rename(ev[1], ev[2])
     elif k in ("dims", "rename_axes_map"):
         mapping = dict(zip(ref.dims(), ev[1])) if k == "dims" else dict(ev[1])
@@ -312,7 +338,7 @@ def apply_ref(ref, ev):
             a[0] = mapping.get(a[0], a[0])
         for key, (d, v) in ref.vars.items():
             ref.vars[key] = ([mapping.get(x, x) for x in d], v)
-    elif k in ("relabel_item", "set_axis_list", "set_axis_call", "axes_setitem_pos"):
+    elif k in ("relabel_item", "set_axis_list", "set_axis_call", "axes_setitem_pos", "copy_set_axis_list"):
         a = ref.axes[ev[1]]
         a[1] = _relabeled(a[1], ev[-1])
     elif k in ("set_axis_dict", "setattr_dim", "axes_setitem_name"):
@@ -331,8 +357,11 @@ def apply_ref(ref, ev):
         a[1] = _relabeled(a[1], ev[4])
     elif k == "append_axis":
         ref.axes.append(["u", list(UL), True])
-    elif k == "rename_keys":
+    elif k in ("rename_keys", "copy_rename_keys"):
         ref.vars[ev[2]] = ref.vars.pop(ev[1])
+    elif k == "rename_keys_map":
+        m = dict((a, b) for a, b in ev[1])      # simultaneous
+        ref.vars = dict((m.get(key, key), v) for key, v in ref.vars.items())
     else:
         raise ValueError(ev)
     return "ok"
@@ -410,8 +439,14 @@ class Space(object):
                     return ok("rejected", True, canon=canon(ds), terminal=True)   # state unchanged: nothing new to expand
             elif isinstance(r, Raised):
                 return bad("step {} {} raised {}".format(n, ev, r), klass="unexpected-exception")
+            elif ev[0].startswith("copy_"):
+                if not isinstance(r, Dataset):
+                    return bad("step {} {}: expected a new Dataset, got {}".format(n, ev, common.describe(r)))
+                if last and (common.snap(ds) != pre or r is ds):
+                    return bad("step {} {}: the inplace=False variant changed the dataset it was called on: now {}".format(n, ev, common.describe(ds)))
+                ds = r
             if last:
-                changed = common.snap(ds) != pre
+                changed = common.snap(ds) != pre or ev[0].startswith("copy_")
         m = invariants(ds, ref)
         if m:
             return bad("after {}: {}".format(hist[-1], m))
